@@ -160,6 +160,16 @@ def f_list(case):
     check(tk.shape == (n, N + 1) and (tk[:, :N] == L).all() and (tk[:, N] == np.array([CODE[int(x)] for x in K])).all(), 'tokenize of list wrong: %s' % tk.tolist(), 'token-values')
     rp = repr(P).split('\n')
     check(rp == [REPR_PREFIX[int(kk)] + ''.join(ref.LET[a] for a in ll) for ll, kk in zip(L, K)], 'repr(list) = %r' % rp, 'repr')
+    # the list is changed in place after it has been tokenized / printed: tokens and text must describe the current contents
+    gl = np.array([1 + (int(L[0][0]) % 3)] + [0] * (N - 1))
+    P2 = Bk.plist(L, K)
+    P2.tokenize(); repr(P2)
+    P2.rotate_by(Bk.pauli(gl, 0))
+    L2, K2 = ref.rotate_rule(L, K, gl, 0)
+    tk2 = Bk.num(P2.tokenize())
+    check((tk2[:, :N] == L2).all() and (tk2[:, N] == np.array([CODE[int(x)] for x in K2])).all(), 'tokenize() after the list was rotated in place gives %s, the list now holds %s' % (
+        tk2.tolist(), ref.show_list(L2, K2)), 'token-stale')
+    check(repr(P2).split('\n') == [REPR_PREFIX[int(kk)] + ''.join(ref.LET[a] for a in ll) for ll, kk in zip(L2, K2)], 'repr() after the list was rotated in place is stale', 'repr-stale')
     for c, dk in SCALAR_FORMS:
         Qs = c * P
         lq, kq = Bk.read_list(Qs)
